@@ -85,6 +85,31 @@ def build_native(nat):
         n = abi.Uint64()
         res = abi.Uint64()
         return pt.Seq(n.set(_arg_n()), res.set(A(n)), pt.App.globalPut(pt.Bytes("r"), res.get()), pt.Int(1))
+    if k == "abi_argtypes":
+        # a routine of n ABI arguments of storage types u(int64) / s(tring); its body applies to argument `pos` the
+        # opcode of its own type (use == "right") or of the other type (use == "wrong": PyTeal must refuse it)
+        types = nat["types"]
+        pos = nat["pos"]
+        wrong = nat["use"] == "wrong"
+        names = ["a%d" % i for i in range(len(types))]
+        ann = {nm: (abi.Uint64 if t == "u" else abi.String) for nm, t in zip(names, types)}
+        ann["output"] = abi.Uint64
+        ann["return"] = pt.Expr
+
+        def body(*args, output):
+            g = args[pos].get()
+            as_bytes = (types[pos] == "s") != wrong
+            return output.set(pt.Len(g) if as_bytes else g + pt.Int(1))
+        src = "def f(%s, *, output):\n    return body(%s, output=output)\n" % (", ".join(names), ", ".join(names))
+        ns = {"body": body}
+        exec(src, ns)
+        f = ns["f"]
+        f.__annotations__ = ann
+        sub = pt.ABIReturnSubroutine(f)
+        vals = [abi.Uint64() if t == "u" else abi.String() for t in types]
+        res = abi.Uint64()
+        return pt.Seq(*[v.set(_arg_n() + pt.Int(i)) if t == "u" else v.set(pt.Txn.application_args[1]) for i, (v, t) in enumerate(zip(vals, types))],
+                      res.set(sub(*vals)), pt.App.globalPut(pt.Bytes("r"), res.get()), pt.Int(1))
     if k == "abi_string":
         @pt.ABIReturnSubroutine
         def twice(s: abi.String, *, output: abi.String) -> pt.Expr:
@@ -298,4 +323,19 @@ def programs(tier="quick"):
     for style in ("expr", "return", "early", "ifelse"):
         for ret in ("u", "b"):
             out.append((2, {"kind": "abi_locals_plain", "style": style, "ret": ret}, ins))
+    return out
+
+
+def argtype_programs(tier="quick"):
+    """every routine of 1..6 (thorough 7) ABI arguments over the storage types {uint64, bytes}, every argument
+    position used once with the opcode of its own type and once with the opcode of the other type (C05: what PyTeal
+    accepts must not meet a wrong-typed operand; the frame layout types each argument cell separately)"""
+    import itertools
+    ins = [{"args": [bytes([n]), m]} for n in (0, 3) for m in (b"ab", b"")]
+    out = []
+    for n in range(1, 7 if tier == "quick" else 8):
+        for types in itertools.product("us", repeat=n):
+            for pos in range(n):
+                for use in ("right", "wrong"):
+                    out.append((n, {"kind": "abi_argtypes", "types": "".join(types), "pos": pos, "use": use}, ins))
     return out
